@@ -718,3 +718,70 @@ package fosite
 //@   ensures [C20.sanitize-keeps-grant] rb.Client == a.Client && rb.Session == a.Session && rb.GrantedScope == a.GrantedScope && rb.GrantedAudience == a.GrantedAudience && rb.RequestedScope == a.RequestedScope && rb.RequestedAudience == a.RequestedAudience && rb.RequestedAt == a.RequestedAt && rb.ID == a.ID
 //@   invariant loop#1 [C20.sanitize-whitelist] forall k string :: (k in allowed && allowed[k]) ==> (insl(allowedParameters, k) || k == "grant_type" || k == "response_type" || k == "scope" || k == "client_id")
 //@   invariant loop#2 [C20.sanitize-whitelist] b != a && b.Form != a.Form && a.Form == pre(a.Form) && (forall k string :: (k in allowed && allowed[k]) ==> (insl(allowedParameters, k) || k == "grant_type" || k == "response_type" || k == "scope" || k == "client_id")) && (forall k string :: k in b.Form ==> (k in allowed && allowed[k]) && k in a.Form && b.Form[k] == a.Form[k])
+
+// ---------------------------------------------------------------- C20: rendering of errors
+// desc_of: the description shown to clients: localized base text, the hint, and the debug text only if exposure is on;
+// double quotes neutralised.
+//@ spec func desc_text(base string, hint string, debug string, expose bool) string = strings.ReplaceAll(base + (hint != "" ? " " + hint : "") + ((debug != "" && expose) ? " " + debug : ""), "\"", "'")
+
+//@ func (*RFC6749Error).computeHintField
+//@   requires e != nil
+//@   modifies e.HintField
+//@   ensures e.hintIDField == "" ==> e.HintField == old(e.HintField)
+
+//@ func (*RFC6749Error).GetDescription
+//@   requires e != nil
+//@   modifies e.HintField
+//@   ensures [C20.debug-only-if-exposed] result == desc_text(i18n.GetMessageOrDefault(e.catalog, e.ErrorField, e.lang, e.DescriptionField), e.HintField, e.DebugField, e.exposeDebug)
+//@   ensures [C20.debug-only-if-exposed] !e.exposeDebug ==> result == desc_text(i18n.GetMessageOrDefault(e.catalog, e.ErrorField, e.lang, e.DescriptionField), e.HintField, "", false)
+//@   ensures e.hintIDField == "" ==> e.HintField == old(e.HintField)
+
+//@ func (RFC6749Error).WithLegacyFormat
+//@   trusted
+//@   ensures result != nil && fresh(result) && typeis(result, *RFC6749Error) && ehead(result) == result
+//@   ensures result.ErrorField == e.ErrorField && result.CodeField == e.CodeField && result.DescriptionField == e.DescriptionField && result.HintField == e.HintField && result.DebugField == e.DebugField && result.exposeDebug == e.exposeDebug && result.useLegacyFormat == useLegacyFormat && result.cause == e.cause && result.hintIDField == e.hintIDField && result.catalog == e.catalog
+
+//@ func (*RFC6749Error).WithExposeDebug
+//@   trusted
+//@   ensures result != nil && fresh(result) && typeis(result, *RFC6749Error) && ehead(result) == result
+//@   ensures result.ErrorField == e.ErrorField && result.CodeField == e.CodeField && result.DescriptionField == e.DescriptionField && result.HintField == e.HintField && result.DebugField == e.DebugField && result.exposeDebug == exposeDebug && result.useLegacyFormat == e.useLegacyFormat && result.cause == e.cause && result.hintIDField == e.hintIDField && result.catalog == e.catalog
+
+//@ func (*RFC6749Error).WithLocalizer
+//@   trusted
+//@   ensures result != nil && fresh(result) && typeis(result, *RFC6749Error) && ehead(result) == result
+//@   ensures result.ErrorField == e.ErrorField && result.CodeField == e.CodeField && result.DescriptionField == e.DescriptionField && result.HintField == e.HintField && result.DebugField == e.DebugField && result.exposeDebug == e.exposeDebug && result.useLegacyFormat == e.useLegacyFormat && result.cause == e.cause && result.hintIDField == e.hintIDField && result.catalog == catalog
+
+// ErrorToRFC6749Error: the first *RFC6749Error of the chain, else a fresh 500 "error" that carries err's text as debug.
+//@ func ErrorToRFC6749Error
+//@   trusted
+//@   ensures result != nil && typeis(result, *RFC6749Error)
+//@   ensures err != nil && typeis(ehead(err), *RFC6749Error) ==> result == ehead(err)
+//@   ensures err != nil && !typeis(ehead(err), *RFC6749Error) ==> fresh(result) && result.ErrorField == "error" && result.CodeField == 500 && !result.exposeDebug
+
+// MarshalJSON: the debug text reaches the JSON body only if exposure is on.
+//@ func (RFC6749Error).MarshalJSON
+//@   ensures [C20.debug-only-if-exposed] result1 == nil && !e.useLegacyFormat ==> (exists d string :: result0 == jsonenc(RFC6749ErrorJson, e.ErrorField, d, "", 0, "") && (e.hintIDField == "" ==> d == desc_text(i18n.GetMessageOrDefault(e.catalog, e.ErrorField, e.lang, e.DescriptionField), e.HintField, e.DebugField, e.exposeDebug)))
+//@   ensures [C20.debug-only-if-exposed] result1 == nil && e.useLegacyFormat ==> result0 == jsonenc(RFC6749ErrorJson, e.ErrorField, e.DescriptionField, e.HintField, e.CodeField, e.exposeDebug ? e.DebugField : "")
+
+//@ func getLangFromRequester
+//@   pure
+//@ func EscapeJSONString
+//@   trusted
+//@   pure
+
+// ---------------------------------------------------------------- C20: JSON error writer (token, introspection, device, PAR endpoints)
+//@ func (*Fosite).writeJsonError
+//@   let rfc = ErrorToRFC6749Error(err)
+//@   requires f != nil && rw != nil && rw.Header() != nil && err != nil
+//@   modifies rw_status, rw_body, rw_writes, mapof(rw.Header())
+//@   ensures [C20.no-store-headers] hget(rw.Header(), "Cache-Control") == "no-store" && hget(rw.Header(), "Pragma") == "no-cache"
+//@   ensures [C20.status-matches-error] typeis(ehead(err), *RFC6749Error) ==> rw_status[rw] == old(ehead(err).CodeField) || rw_status[rw] == 500
+//@   ensures [C20.status-matches-error] !typeis(ehead(err), *RFC6749Error) ==> rw_status[rw] == 500
+//@   ensures [C20.one-body] rw_writes[rw] == old(rw_writes[rw]) + 1
+
+//@ func (*Fosite).WriteAccessError
+//@   requires f != nil && rw != nil && rw.Header() != nil && err != nil
+//@   modifies rw_status, rw_body, rw_writes, mapof(rw.Header())
+//@   ensures [C20.no-store-headers] hget(rw.Header(), "Cache-Control") == "no-store" && hget(rw.Header(), "Pragma") == "no-cache"
+//@   ensures [C20.status-matches-error] typeis(ehead(err), *RFC6749Error) ==> rw_status[rw] == old(ehead(err).CodeField) || rw_status[rw] == 500
+//@   ensures [C20.status-matches-error] !typeis(ehead(err), *RFC6749Error) ==> rw_status[rw] == 500
